@@ -68,6 +68,10 @@ def zoomThreshold (nu rho h : α) : α := nu * rpow rho h
 def vroomProb (h rank C : α) : α := 1 / (h * rank * C)
 def vroomTilde (r cum pw : α) : α := r / (cum / pw)
 
+/-- HCT / VHCT: `c₁ = (ρ/(3ν))^{1/8}`; VROOM: `δ = 4b/(f_max·√n)` -/
+def hctC1 (nu rho : α) : α := rpow (rho / (3 * nu)) (1 / 8)
+def vroomDelta (b fmax n : α) : α := 4 * b / (fmax * sqrt n)
+
 /-- VHCT: the empirical variance used in the index is floored at `minvar` -/
 def varFloor (max2 : α → α → α) (var minvar : α) : α := max2 var minvar
 
